@@ -54,6 +54,25 @@ extern uint32_t vf_projmask;   /* which classes of behaviour-log entries this pr
 #define VF_M_F 64u
 #define VF_M_Q 128u   /* which behaviour hooks fire in the current step */
 
+/* C15: two machine objects; the continuation drives one of them (vf_which) */
+extern uint32_t vf_which;
+void VFN(vf_copy)(vf_i32 mode);
+vf_i32 VFN(vf_ev2)(vf_i32 kind, vf_i32 p);
+vf_i32 VFN(vf_id2)(vf_i32 mi, vf_i32 r);
+void VFN(vf_execq2)(void);
+vf_i32 VFN(vf_qsize2)(void);
+void VFN(vf_reuse_moved_from)(void);
+#ifdef VF_TWO_MACHINES
+#define VF_EV(k, p) (vf_which ? VFN(vf_ev2)(k, p) : VFN(vf_ev)(k, p))
+#define VF_EXECQ() do { if (vf_which) VFN(vf_execq2)(); else VFN(vf_execq)(); } while (0)
+#define VF_ID_DRIVEN(mi, r) (vf_which ? VFN(vf_id2)(mi, r) : VFN(vf_id)(mi, r))
+#define VF_ID_OTHER(mi, r) (vf_which ? VFN(vf_id)(mi, r) : VFN(vf_id2)(mi, r))
+#define VF_QSIZE_DRIVEN() (vf_which ? VFN(vf_qsize2)() : VFN(vf_qsize)())
+#define VF_QSIZE_OTHER() (vf_which ? VFN(vf_qsize)() : VFN(vf_qsize2)())
+#else
+#define VF_EV(k, p) VFN(vf_ev)(k, p)
+#define VF_EXECQ() VFN(vf_execq)()
+#endif
 void vf_init(void);
 uint32_t vf_nondet(int slot);
 
